@@ -30,4 +30,7 @@ Running == pc \in {"release", "solve", "update", "done", "giveup"}
 Inv == Running => NonNegative /\ Consistent /\ Optimal /\ NeverGivesUp /\ StrictIsAnOutcome
 Descent == [][pc = "update" /\ pc' = "release" => RLe(Q(x'), q0)]_vars
 Terminates == <>(pc \in {"done", "giveup"})
+(* reachability probes (expected to be violated when the branch is reachable) *)
+NoWalkLast == branch # "walk-last"
+NoWalk == branch # "walk"
 =============================================================================
